@@ -221,6 +221,18 @@ fn main() {
                         other => ctx.violation("calver_failed", key, json!({"kind":"git-calver","t":ht}), format!("{other:?}")),
                     }
                 }
+                // --clean (distance 0, not dirty) changes neither timestamp: the date is still the commit time of HEAD
+                {
+                    let c = cal::civil(ht);
+                    for (extra, label) in [(vec!["--clean"], "--clean"), (vec!["--no-dirty"], "--no-dirty"), (vec!["--distance", "0"], "--distance 0"), (vec!["--bumped-branch", "x"], "--bumped-branch x")] { for preset in ["calver-base", "calver"] {
+                        st.inc("git_calver_evaluations");
+                        let mut args = vec!["version", "-C", &dir, "--schema", preset, "--output-format", "semver"]; args.extend(extra.iter());
+                        match zv::run_cli(&args, None) {
+                            Ok(Res::Ok(out)) => { let ok = rsv::parse(&out).map(|p| p.core == [c.year.to_string(), c.month.to_string(), c.day.to_string()]).unwrap_or(false); if !ok { ctx.violation("git_calver_date_mismatch", format!("git {preset} {label} head {head:?} commit time {ht}"), json!({"kind":"git-calver","t":ht,"preset":preset,"flag":label}), format!("printed {out:?}, UTC date of the commit time is {}-{}-{}", c.year, c.month, c.day)); } }
+                            other => ctx.violation("calver_failed", format!("git {preset} {label} @ {ht}"), json!({"kind":"git-calver","t":ht}), format!("{other:?}")),
+                        }
+                    }}
+                }
                 // without the bump context the date falls back to the *tagged commit's* commit time (t0), not to the time an
                 // annotated tag object was written (40 days later in these repositories)
                 if matches!(head, Head::Branch(_)) {
